@@ -291,13 +291,13 @@ fn run(ctx: &Ctx) {
     let plans = [
         GenPlan {
             gen: "par-many",
-            cases: ctx.tier.pick(250, 4000),
+            cases: ctx.tier.pick(400, 6000),
             min_len: 17,
             max_len: ctx.tier.pick(2500, 6000),
         },
         GenPlan {
             gen: "full-nobig",
-            cases: ctx.tier.pick(250, 4000),
+            cases: ctx.tier.pick(400, 6000),
             min_len: 17,
             max_len: 1500,
         },
